@@ -438,9 +438,16 @@ func genWarm(r *wire.Rng, out *wire.Out) {
 		names0 = []string{"a"}
 	}
 	out.Line("req", "EDS", wire.EncList(names0), wire.Enc(oldNonce()), "-")
-	out.Line("send", "EDS", wire.Enc("n1"), "1")
-	if r.Chance(1, 2) {
-		out.Line("req", "EDS", wire.EncList(names0), wire.Enc("n1"), "-") // ACK
+	// the EDS answer may still be on its way (nothing generated yet, or its send failed) when the CDS request arrives
+	late := r.Chance(1, 4)
+	if late && r.Chance(1, 2) {
+		out.Line("send", "EDS", wire.Enc("n0"), "0")
+	}
+	if !late {
+		out.Line("send", "EDS", wire.Enc("n1"), "1")
+		if r.Chance(1, 2) {
+			out.Line("req", "EDS", wire.EncList(names0), wire.Enc("n1"), "-") // ACK
+		}
 	}
 	cdsNames := []string{}
 	if r.Chance(1, 3) {
@@ -448,6 +455,9 @@ func genWarm(r *wire.Rng, out *wire.Out) {
 	}
 	out.Line("req", "CDS", wire.EncList(cdsNames), wire.Enc(oldNonce()), "-")
 	out.Line("send", "CDS", wire.Enc("n2"), "1")
+	if late {
+		out.Line("send", "EDS", wire.Enc("n1"), "1")
+	}
 	if r.Chance(1, 2) {
 		out.Line("req", "CDS", wire.EncList(cdsNames), wire.Enc("n2"), "-") // ACK
 	}
@@ -498,7 +508,7 @@ func gen(stream string, seed uint64, n int, outp string) {
 		lastSent := map[string]string{}
 		lastNames := map[string][]string{}
 		nonceCtr := 0
-		var staleNonces []string
+		var staleNonces, failedNonces []string
 		for i := 0; i < length; i++ {
 			t := wire.Pick(r, types)
 			wild := xds.IsWildcardTypeURL(typeURL[t])
@@ -512,6 +522,10 @@ func gen(stream string, seed uint64, n int, outp string) {
 					}
 					return "zz"
 				case 3:
+					// the nonce of a response whose send failed: the client never saw it
+					if len(failedNonces) > 0 {
+						return wire.Pick(r, failedNonces)
+					}
 					return "zz"
 				default:
 					return lastSent[t]
@@ -539,6 +553,13 @@ func gen(stream string, seed uint64, n int, outp string) {
 						lastSent[t] = nn
 					}
 					out.Line("send", t, wire.Enc(nn), wire.B(ok))
+					if !ok && nn != "" {
+						failedNonces = append(failedNonces, nn)
+						if r.Chance(1, 2) {
+							// the client echoes it all the same, with more names than it had
+							out.Line("req", t, wire.EncList(append(append([]string{}, lastNames[t]...), wire.Pick(r, nameUniverse))), wire.Enc(nn), "-")
+						}
+					}
 				case r.Chance(1, 3) && lastSent[t] != "":
 					// conformant ACK: current nonce, names as last requested
 					out.Line("req", t, wire.EncList(lastNames[t]), wire.Enc(lastSent[t]), "-")
@@ -552,12 +573,17 @@ func gen(stream string, seed uint64, n int, outp string) {
 				case r.Chance(1, 3):
 					nonceCtr++
 					nn := "n" + strconv.Itoa(nonceCtr)
+					if r.Chance(1, 12) {
+						nn = "" // sendDelta records an empty nonce as well
+					}
 					ok := r.Chance(5, 6)
 					if ok {
 						if lastSent[t] != "" {
 							staleNonces = append(staleNonces, lastSent[t])
 						}
 						lastSent[t] = nn
+					} else if nn != "" {
+						failedNonces = append(failedNonces, nn)
 					}
 					names := "nil"
 					if r.Chance(1, 2) {
@@ -572,6 +598,12 @@ func gen(stream string, seed uint64, n int, outp string) {
 					univ := append([]string{"*"}, nameUniverse...)
 					sub := wire.Subset(r, univ, 1, 3)
 					unsub := wire.Subset(r, univ, 1, 5)
+					if r.Chance(1, 8) && len(sub) > 0 {
+						sub = append(sub, sub[r.Intn(len(sub))]) // a duplicate in resource_names_subscribe
+					}
+					if r.Chance(1, 12) && len(unsub) > 0 {
+						unsub = append(unsub, unsub[0])
+					}
 					var init []string
 					if r.Chance(1, 6) {
 						init = wire.Subset(r, nameUniverse, 1, 2)
@@ -607,131 +639,101 @@ func oracle(stream, in, outp string) {
 	out := wire.Create(outp)
 	defer out.Close()
 	s := newSUT()
-	verdict := ""
+	o := &histOracle{}
+	o.reset()
 	caseOpen := false
-	idx := 0
 	flush := func() {
 		if caseOpen {
-			if verdict == "" {
-				verdict = "OK"
+			if o.verdict == "" {
+				o.verdict = "OK"
 			}
-			out.Line(verdict)
-		}
-	}
-	fail := func(clause string, detail string) {
-		if verdict == "" {
-			verdict = fmt.Sprintf("FAIL %s op=%d %s", clause, idx, wire.Enc(detail))
+			out.Line(o.verdict)
 		}
 	}
 	// asked: per type, what the client has asked for so far on this stream (delta); nonconf: the script sent
-	// initial_resource_versions on a later request of the type (not a conformant client)
+	// initial_resource_versions on a later request of the type (not a conformant client) or a send rewrote the names
 	asked := map[string]sets.Set[string]{}
 	nonconf := map[string]bool{}
 	for _, f := range wire.ReadLines(in) {
+		line := strings.Join(f, " ")
 		if f[0] == "case" {
 			flush()
 			s = newSUT()
-			verdict, caseOpen, idx = "", true, 0
+			o.reset()
+			caseOpen = true
 			asked = map[string]sets.Set[string]{}
 			nonconf = map[string]bool{}
 			continue
 		}
-		idx++
+		o.idx++
 		switch f[0] {
 		case "req":
-			url := typeURL[f[1]]
-			prev := snapshot(s.proxy, url)
+			t := f[1]
+			url := typeURL[t]
 			names := wire.DecList(f[2])
 			nonce := wire.Dec(f[3])
-			isErr := f[4] != "-"
+			e := o.expectSotw(t, names, nonce, errMsgOf(f[4]))
 			res := s.apply(f)
 			if res == "crash" {
-				fail("never-crashes", strings.Join(f, " "))
+				o.fail("never-crashes", line)
 				continue
 			}
-			responded := strings.HasPrefix(res, "1 ")
-			cur := snapshot(s.proxy, url)
-			unsub := len(names) == 0 && !xds.IsWildcardTypeURL(url)
+			parts := strings.SplitN(res, " ", 3)
+			responded := parts[0] == "1"
+			subscribed := wire.DecList(parts[1])
 			switch {
-			case isErr:
-				if responded {
-					fail("nack-silent", res)
-				}
-			case unsub:
-				if responded || cur != nil {
-					fail("unsubscribe-deletes-watch", res)
-				}
-			case prev == nil || nonce == "":
-				if !responded {
-					fail("first-request-or-reconnect-responds", res)
-				}
-				if cur == nil || !sameSet(cur.ResourceNames, names) {
-					fail("record-matches-request", res)
-				}
-			case nonce != prev.NonceSent:
-				if responded {
-					fail("stale-nonce-silent", res)
-				}
-			default:
-				added := sets.New(names...).Difference(prev.ResourceNames)
-				removed := prev.ResourceNames.Difference(sets.New(names...))
-				if len(added) > 0 && !responded {
-					fail("added-names-respond", res)
-				}
-				if len(added) == 0 && len(removed) == 0 && !prev.AlwaysRespond && responded {
-					fail("ack-silent", res)
-				}
-				if prev.AlwaysRespond {
-					// the watch was marked by NewWatchedResource of the type it warms (CDS -> EDS): this is the
-					// subscription Envoy re-sends for its warming clusters, every listed name may be waiting, so the
-					// answer has to cover all of them (a full generation), whatever changed in the list
-					parts := strings.SplitN(res, " ", 3)
-					if !responded || len(parts) < 2 || len(wire.DecList(parts[1])) != 0 {
-						fail("warming-request-answered-in-full", res)
-					}
-				}
-				if cur == nil || !sameSet(cur.ResourceNames, names) {
-					fail("record-matches-request", res)
-				}
-				if cur != nil && cur.AlwaysRespond {
-					fail("no-loop(always-respond-not-consumed)", res)
-				}
-				// closed loop: a conformant client now ACKs (same nonce, same names) - must be silent
-				if responded {
-					// the response would carry a new nonce; simulate send + ack on a copy
-					s.ss.fail = false
-					_ = xds.Send(s.con, &discovery.DiscoveryResponse{TypeUrl: url, Nonce: "oracle-nonce"})
-					r2, _ := xds.ShouldRespond(s.proxy, "verif", &discovery.DiscoveryRequest{TypeUrl: url, ResourceNames: names, ResponseNonce: "oracle-nonce"})
-					if r2 {
-						fail("no-loop(ack-of-response-answered)", res)
-					}
-					// restore the nonce so that the rest of the scripted case is unaffected
-					s.proxy.WatchedResources[url].NonceSent = cur.NonceSent
-					s.proxy.WatchedResources[url].NonceAcked = cur.NonceAcked
-				}
+			case responded != e.respond:
+				o.fail(e.clause, res)
+			case e.respond && e.full && len(subscribed) != 0:
+				o.fail(e.clause, "narrowed to "+parts[1]+": "+res)
+			case e.respond && !e.full && !sameNames(subscribed, sets.New(e.asked...)):
+				o.fail(e.clause, "Subscribed="+parts[1]+" want "+strings.Join(e.asked, ",")+": "+res)
 			}
+			o.checkTable(s.proxy, false, false, nil, line)
+			// closed loop: a conformant client now ACKs the response (same names, the response's nonce): silent
+			if responded && o.verdict == "" {
+				cur := snapshot(s.proxy, url)
+				s.ss.fail = false
+				_ = xds.Send(s.con, &discovery.DiscoveryResponse{TypeUrl: url, Nonce: "oracle-nonce"})
+				r2, _ := xds.ShouldRespond(s.proxy, "verif", &discovery.DiscoveryRequest{TypeUrl: url, ResourceNames: names, ResponseNonce: "oracle-nonce"})
+				if r2 {
+					o.fail("no-loop(ack-of-response-answered)", res)
+				}
+				// restore the record so that the rest of the scripted case is unaffected
+				s.proxy.WatchedResources[url].NonceSent = cur.NonceSent
+				s.proxy.WatchedResources[url].NonceAcked = cur.NonceAcked
+			}
+		case "send":
+			if s.apply(f) == "crash" {
+				o.fail("never-crashes", line)
+			}
+			if f[3] == "1" {
+				o.sendSotw(f[1], wire.Dec(f[2]))
+			}
+			o.checkTable(s.proxy, false, false, nil, line)
 		case "dreq":
-			url := typeURL[f[1]]
-			prev := snapshot(s.proxy, url)
-			nonce := wire.Dec(f[5])
-			isErr := f[6] != "-"
+			t := f[1]
+			url := typeURL[t]
 			sub, unsubL, initL := wire.DecList(f[2]), wire.DecList(f[3]), wire.DecList(f[4])
-			// a delta client sends each subscription change once and may attach it to any request (also a NACK
-			// or the ACK of a response that a newer push has overtaken): the change must never be lost
+			isErr := f[6] != "-"
 			carries := len(sub) > 0 || len(unsubL) > 0
+			existed := o.get(t).exists
+			e := o.expectDelta(t, sub, unsubL, initL, wire.Dec(f[5]), errMsgOf(f[6]))
 			res := s.apply(f)
 			if res == "crash" {
-				fail("never-crashes", strings.Join(f, " "))
+				o.fail("never-crashes", line)
 				continue
 			}
-			responded := strings.HasPrefix(res, "1 ")
-			cur := snapshot(s.proxy, url)
-			stale := prev != nil && nonce != "" && nonce != prev.NonceSent
-			// history of what the client asked for on this type (conformant part: initial versions only first)
-			if prev != nil && len(initL) > 0 {
+			if strings.HasPrefix(res, "1 ") != e.respond {
+				o.fail(e.clause, res)
+			}
+			o.checkTable(s.proxy, true, false, nil, line)
+			// the last sentence of the property over the whole exchange, with its own fold of the history: after a
+			// processed message that is not a rejection the record equals everything a conformant client has asked for
+			if existed && len(initL) > 0 {
 				nonconf[url] = true
 			}
-			if prev == nil && !(isErr && !carries) {
+			if !existed && !(isErr && !carries) {
 				asked[url] = sets.New[string]()
 				asked[url].InsertAll(sub...)
 				asked[url].InsertAll(initL...)
@@ -742,74 +744,36 @@ func oracle(stream, in, outp string) {
 				asked[url].DeleteAll(unsubL...)
 				asked[url].Delete("*")
 			}
-			switch {
-			case prev == nil && isErr && !carries:
-				if responded || cur != nil {
-					fail("nack-silent", res)
-				}
-			case prev == nil:
-				if !responded {
-					fail("first-request-or-reconnect-responds", res)
-				}
-			case (isErr || stale) && !carries:
-				if responded {
-					if isErr {
-						fail("nack-silent", res)
-					} else {
-						fail("stale-nonce-silent", res)
-					}
-				}
-				if cur == nil || !cur.ResourceNames.Equals(prev.ResourceNames) {
-					fail("silent-request-changed-record", res)
-				}
-			default:
-				pure := !carries && len(initL) == 0
-				if pure && nonce != "" && !prev.AlwaysRespond && responded {
-					fail("ack-silent", res)
-				}
-				if cur != nil && cur.AlwaysRespond {
-					fail("no-loop(always-respond-not-consumed)", res)
-				}
-				if (isErr || stale) && cur != nil && cur.NonceAcked != prev.NonceAcked {
-					fail("rejected-or-stale-ack-recorded", res)
-				}
-				managedWild := (url == v3.AddressType || url == v3.WorkloadType) && prev.Wildcard
-				if !managedWild {
-					// record = fold of the subscribe/unsubscribe history
-					want := prev.ResourceNames.Copy()
-					want.InsertAll(sub...)
-					want.InsertAll(initL...)
-					want.DeleteAll(unsubL...)
-					want.Delete("*")
-					if cur == nil || !cur.ResourceNames.Equals(want) {
-						fail("record-matches-request", res)
-					}
-					grew := !want.Difference(prev.ResourceNames).IsEmpty()
-					if grew && !responded {
-						fail("added-names-respond", res)
-					}
-				}
-			}
-			// the last sentence of the property, over the whole exchange: after a processed message that is not a
-			// rejection, the record equals everything the client has asked for so far (named types, no pushes
-			// that rewrite the names of wildcard types)
-			if !isErr && asked[url] != nil && !nonconf[url] && cur != nil && !cur.Wildcard && !xds.IsWildcardTypeURL(url) &&
-				url != v3.AddressType && url != v3.WorkloadType {
+			cur := s.proxy.WatchedResources[url]
+			if !isErr && asked[url] != nil && !nonconf[url] && cur != nil && !cur.Wildcard && namedType(t) {
 				if !cur.ResourceNames.Equals(asked[url]) {
-					fail("record-equals-what-the-client-asked-for", res+" asked="+strings.Join(sets.SortedList(asked[url]), ","))
+					o.fail("record-equals-what-the-client-asked-for", res+" asked="+strings.Join(sets.SortedList(asked[url]), ","))
 				}
 			}
 		case "dsend":
-			if len(f) > 3 && f[3] != "nil" {
-				// the send rewrites the recorded names (wildcard types): the history clause does not apply any more
+			if f[3] != "nil" {
+				// the send rewrites the recorded names (wildcard types): the fold above does not apply any more
 				nonconf[typeURL[f[1]]] = true
 			}
 			if s.apply(f) == "crash" {
-				fail("never-crashes", strings.Join(f, " "))
+				o.fail("never-crashes", line)
 			}
+			if f[4] == "1" {
+				o.sendDelta(f[1], wire.Dec(f[2]), wire.DecList(f[3]), f[3] != "nil")
+			}
+			o.checkTable(s.proxy, true, false, nil, line)
+		case "always":
+			// the environment marks the watch (another type's new watch): part of the history
+			if h := o.get(f[1]); h.exists {
+				h.warm = true
+			}
+			if s.apply(f) == "crash" {
+				o.fail("never-crashes", line)
+			}
+			o.checkTable(s.proxy, true, false, nil, line)
 		default:
 			if s.apply(f) == "crash" {
-				fail("never-crashes", strings.Join(f, " "))
+				o.fail("never-crashes", line)
 			}
 		}
 	}
